@@ -31,6 +31,42 @@ class ListV(TupleV):
         return "[" + ", ".join(map(str, self.items)) + "]"
 
 
+class PoisonV:
+    """Value of a name that a skipped statement (outside the algebra) may have assigned or updated in place: reading it is Unsupported."""
+    def __init__(self, why):
+        self.why = why
+
+
+def _written_names(st):
+    """Local names and `self.x` texts a statement may bind or update in place (targets, in-place operators, mutating method calls)."""
+    out = set()
+
+    def base(e):
+        while isinstance(e, (ast.Subscript, ast.Attribute)) and not (isinstance(e, ast.Attribute) and isinstance(e.value, ast.Name)
+                                                                       and e.value.id in ("self", "cls")):
+            e = e.value
+        return e
+    for n in ast.walk(st):
+        tg = []
+        if isinstance(n, ast.Assign):
+            for t in n.targets:
+                tg.extend(t.elts if isinstance(t, (ast.Tuple, ast.List)) else [t])
+        elif isinstance(n, (ast.AugAssign, ast.AnnAssign)):
+            tg = [n.target]
+        elif isinstance(n, (ast.For, ast.comprehension)):
+            tg = [x for x in ast.walk(n.target) if isinstance(x, ast.Name)]
+        elif isinstance(n, ast.Call) and isinstance(n.func, ast.Attribute) and n.func.attr in (
+                "append", "extend", "insert", "pop", "remove", "clear", "sort", "reverse", "fill", "resize", "put", "update"):
+            tg = [n.func.value]
+        for t in tg:
+            b = base(t.value if isinstance(t, ast.Starred) else t)
+            if isinstance(b, ast.Name):
+                out.add(b.id)
+            elif isinstance(b, ast.Attribute):
+                out.add(ast.unparse(b))
+    return out
+
+
 class NoneV:
     def __repr__(self):
         return "None"
@@ -224,7 +260,9 @@ class Expander:
             try:
                 sub.run_until(fn.body, cenv, st)
                 return sub.eval(value, cenv)
-            except Unsupported:
+            except Unsupported as e:
+                if "outside the algebra" in str(e) and "is written by a statement" in str(e):
+                    raise               # the definition depends on a skipped in-place update: an opaque atom would hide it
                 return R.sym(key)
         return R.sym(key)
 
@@ -271,7 +309,14 @@ class Expander:
                 return True
             try:
                 self.exec_stmt(st, env)
-            except (Unsupported, Returned, Raised):
+            except (Returned, Raised):
+                continue
+            except Unsupported as e:
+                # the statement is skipped - but whatever it may have written is no longer known
+                for nm in _written_names(st):
+                    if nm not in env or isinstance(env[nm], PoisonV):
+                        continue        # a first binding that cannot be expanded leaves the name an opaque atom, as before
+                    env[nm] = PoisonV(f"`{nm}` is written by a statement outside the algebra (line {getattr(st, 'lineno', 0)}: {e})")
                 continue
         return False
 
@@ -473,6 +518,8 @@ class Expander:
             raise Unsupported(f"constant {v!r}")
         if isinstance(node, ast.Name):
             if node.id in env:
+                if isinstance(env[node.id], PoisonV):
+                    raise Unsupported(env[node.id].why)
                 return env[node.id]
             q = self.mi.imports.get(node.id)
             if q in ("numpy.pi", "math.pi"):
@@ -483,6 +530,8 @@ class Expander:
         if isinstance(node, (ast.Subscript, ast.Attribute)):
             txt = ast.unparse(node)
             if txt in env:
+                if isinstance(env[txt], PoisonV):
+                    raise Unsupported(env[txt].why)
                 return env[txt]
         if isinstance(node, ast.Attribute):
             return self.eval_attribute(node, env)
